@@ -446,6 +446,12 @@ impl Space for AddDays {
                 let Oc::Ok(wd) = call(|| date_dur(0, 0, n / 7, n % 7)) else { continue };
                 let got = call(|| date.add(&wd, None));
                 out.lockstep("add(N days as weeks and days)", &model, &got, same, attrs);
+                // ... and as weeks and whole days of hours (time units contribute whole days)
+                if n / 7 != 0 {
+                    let Ok(wh) = dur10([0.0, 0.0, (n / 7) as f64, 0.0, ((n % 7) * 24) as f64, 0.0, 0.0, 0.0, 0.0, 0.0]) else { continue };
+                    let got = call(|| date.add(&wh, None));
+                    out.lockstep("add(N days as weeks and hours)", &model, &got, same, attrs);
+                }
             }
         }
     }
